@@ -20,7 +20,8 @@ COQ_PROPS_EXTRA = ["Props/C04std.v"]
 HARNESS = {"bin": "core"}
 EXTRA_HARNESS = {"dev": ("dev", ())}
 EXTRA_ORACLE = ["dev"]
-THEOREMS = ["see Props/C04.v"]
+THEOREMS = ["Props/C04.v: no byte string reaches a panic site of the model through parse_document / parse_value_raw / parse_key / parse_key_path; every loop ends within fuel S(length input); state-machine invariant; error offsets in range; rendering total",
+            "Props/C04std.v: the standalone toml_datetime parser and printer on a checked transcription (every u8 / u16 / u32 / i16 operation explicit) never panic (names in coverage.theorem_names)"]
 RULE = ("malformed byte stream (invalid UTF-8, truncated sequences, NUL/control bytes, unterminated constructs, extreme numbers "
         "and dates) + valid documents, their mutations and truncations + the toml-test corpus; non-trivial = input of >= 4 bytes")
 ASSUMPTIONS = ["wall-clock time is measured against a generous linear budget, not proved; the model proves linear fuel only",
